@@ -239,6 +239,10 @@ def _order(tier="quick", seed=0):
     index parameters are evaluated before and after the junction flush"""
     out = flow.self_call_sequence("model:Model.process", "while", ["update_comps", "update_pars", "update_links"], "stocks, then parameters, then flows")
     out += flow.self_call_sequence("model:Model.process", "if:self._t_index == 0", ["update_pars", "flush_junctions", "update_pars", "update_links"], "start-up: parameters, flush, parameters again, flows")
+    # execution orders: dependencies before dependants (parameters, characteristics), upstream junctions before downstream ones
+    out += flow.dependency_edges("model:Model._set_exec_order",
+                                 [("dep", "par.name"), ("par.pop_aggregation[1]", "par.name"), ("include", "charac"), ("charac.denominator", "charac"), ("link.source", "link.dest")],
+                                 ["all_pars", "characs", "junctions"])
     return out
 
 
@@ -252,3 +256,4 @@ def _with_order(prev):
 EXTRA_CHECKS.update({"C18": _c18, "C16": _c16, "C20": _c20, "C09": _c09, "C08": _c08, "C15": _c15})
 EXTRA_CHECKS["C01"] = _with_order(EXTRA_CHECKS.get("C01"))
 EXTRA_CHECKS["C06"] = _with_order(EXTRA_CHECKS.get("C06"))
+EXTRA_CHECKS["C04"] = _with_order(EXTRA_CHECKS.get("C04"))
